@@ -26,8 +26,8 @@ func (i bufItem) String() string {
 
 // c23bare drives the real local packet buffer directly, against a reference FIFO: 1-4 lock
 // cycles of inserts with all field values (keys of both IP versions, every packet type, aux byte,
-// parse status and a 32-bit size), each followed by a complete drain and a reset, with the size
-// limit drawn around the growth steps. Used by one C23 run in three; the others exercise the
+// parse status and a 32-bit size), in one cycle of two interleaved with partial drains, each
+// followed by a complete drain and a reset, with the size limit drawn around the growth steps. Used by one C23 run in three; the others exercise the
 // buffer in situ (captureRun).
 func c23bare(r *sim.R) *sim.Violation {
 	t := r.T
@@ -52,38 +52,18 @@ func c23bare(r *sim.R) *sim.Violation {
 			}
 		}
 		refusals := 0
-		for k := 0; k < n; k++ {
-			it := bufItem{v4: t.Draw(3) != 0, ptype: byte(t.Draw(256)), aux: byte(t.Draw(256)), errno: errnos[t.Draw(len(errnos))]}
-			it.size = []uint32{uint32(40 + t.Draw(1460)), 65535, 65536, 1 << 24, 0xFFFFFFFF, 0}[t.Draw(6)]
-			kl := 37
-			if it.v4 {
-				kl = 13
-			}
-			it.key = t.Bytes(kl, 2)
-			need := kl + 8
-			ok := buf.Add(it.key, it.ptype, it.size, it.v4, it.aux, it.errno)
-			if ok {
-				ref = append(ref, it)
-				used += need
-				continue
-			}
-			refusals++
-			r.Probe("bare_buffer_refusal")
-			// a refusal is legitimate only when the buffer has (all but) reached its limit; the
-			// footprint of an element is not part of the contract, so only clear cases are judged:
-			// less than half of the limit in use by the most generous accounting
-			if 2*(used+need) <= limit && limit >= 4096 {
-				return r.Report(&sim.Violation{Clause: "packet-refused-before-the-limit", Signature: "bare buffer",
-					Detail: fmt.Sprintf("cycle %d: insert %d (%s) refused with about %d of %d bytes in use", cycle, k, it, used, limit)})
-			}
-		}
-		// drain: exactly the accepted items, in order, every field intact
-		for k, want := range ref {
+		head := 0 // ref[:head] has been taken out again
+		// one cycle in two interleaves partial drains with the inserts (the capture drains only
+		// once, at the end; the property is stated for all sequences of inserts and drains)
+		interleaved := t.Draw(2) == 0
+		takeOne := func() *sim.Violation {
+			k, want := head, ref[head]
 			key, ptype, size, v4, aux, errno, ok := buf.Next()
 			if !ok {
 				return r.Report(&sim.Violation{Clause: "buffered-item-lost", Signature: "bare buffer",
-					Detail: fmt.Sprintf("cycle %d (limit %d, %d inserts, %d refused): drain ended after %d of %d accepted items", cycle, limit, n, refusals, k, len(ref))})
+					Detail: fmt.Sprintf("cycle %d (limit %d, %d inserts, %d refused, interleaved drains %v): drain ended after %d of %d accepted items", cycle, limit, n, refusals, interleaved, k, len(ref))})
 			}
+			head++
 			got := bufItem{key: key, ptype: ptype, size: size, v4: v4, aux: aux, errno: errno}
 			if !bytes.Equal(got.key, want.key) || got.ptype != want.ptype || got.size != want.size || got.v4 != want.v4 || got.aux != want.aux || got.errno != want.errno {
 				field := "key"
@@ -102,7 +82,48 @@ func c23bare(r *sim.R) *sim.Violation {
 					field = "parse status"
 				}
 				return r.Report(&sim.Violation{Clause: "buffered-item-altered", Signature: "bare buffer: " + field,
-					Detail: fmt.Sprintf("cycle %d (limit %d): item %d of %d went in as %s and came out as %s", cycle, limit, k, len(ref), want, got)})
+					Detail: fmt.Sprintf("cycle %d (limit %d, interleaved drains %v): item %d of %d went in as %s and came out as %s", cycle, limit, interleaved, k, len(ref), want, got)})
+			}
+			return nil
+		}
+		for k := 0; k < n; k++ {
+			if interleaved && t.Draw(6) == 0 {
+				for j, m := 0, 1+t.Draw(8); j < m && head < len(ref); j++ {
+					if v := takeOne(); v != nil {
+						return v
+					}
+				}
+				r.Probe("bare_buffer_partial_drain")
+			}
+			it := bufItem{v4: t.Draw(3) != 0, ptype: byte(t.Draw(256)), aux: byte(t.Draw(256)), errno: errnos[t.Draw(len(errnos))]}
+			it.size = []uint32{uint32(40 + t.Draw(1460)), 65535, 65536, 1 << 24, 0xFFFFFFFF, 0}[t.Draw(6)]
+			kl := 37
+			if it.v4 {
+				kl = 13
+			}
+			it.key = t.Bytes(kl, 2)
+			need := kl + 8
+			ok := buf.Add(it.key, it.ptype, it.size, it.v4, it.aux, it.errno)
+			if ok {
+				ref = append(ref, it)
+				used += need
+				continue
+			}
+			refusals++
+			r.Probe("bare_buffer_refusal")
+			// a refusal is legitimate only when the buffer has (all but) reached its limit; the
+			// footprint of an element is not part of the contract, so only clear cases are judged:
+			// less than half of the limit in use by the most generous accounting (items taken out
+			// in between still count: the buffer is only emptied by a reset)
+			if 2*(used+need) <= limit && limit >= 4096 {
+				return r.Report(&sim.Violation{Clause: "packet-refused-before-the-limit", Signature: "bare buffer",
+					Detail: fmt.Sprintf("cycle %d: insert %d (%s) refused with about %d of %d bytes in use", cycle, k, it, used, limit)})
+			}
+		}
+		// drain: exactly the accepted items, in order, every field intact
+		for head < len(ref) {
+			if v := takeOne(); v != nil {
+				return v
 			}
 		}
 		if _, _, _, _, _, _, ok := buf.Next(); ok {
